@@ -252,10 +252,10 @@ theorem parseOptStringValue_encStr (s : String) (rest : Bytes) :
 /-! ## one iteration of the field loop -/
 
 theorem nextKey_first (r : Bytes) : nextKey true (0x22 :: r) = .ok (some r, []) := by
-  simp [nextKey, skipWs_cons, isWs]
+  simp [nextKey, keyAt, skipWs_cons, isWs]
 
 theorem nextKey_comma (r : Bytes) : nextKey false (0x2c :: 0x22 :: r) = .ok (some r, []) := by
-  simp [nextKey, skipWs_cons, isWs]
+  simp [nextKey, keyAt, skipWs_cons, isWs]
 
 theorem nextKey_end (first : Bool) (r : Bytes) : nextKey first (0x7d :: r) = .ok (none, 0x7d :: r) := by
   simp [nextKey, skipWs_cons, isWs]
